@@ -411,6 +411,10 @@ class kFlowDecomp(pathmodel.AbstractPathModelDAG):
                 if gu.max_occurrence(subpath, paths, edge_lengths=edge_lengths) < constraint_length * coverage_fraction:
                     return False
         
+        if len(paths) == 0:
+            # (all flow values are zero: nothing was peeled off, leave the instance to the MILP)
+            return False
+
         if len(paths) <= self.k:
             # If paths contains strictly less than self.k paths, 
             # then we add arbitrary paths (i.e. we repeat the first path) with 0 weights to reach self.k paths.
